@@ -152,8 +152,10 @@ func (s *Server) Session(strm signaling.SRPCSignaling_SessionStream) error {
 	}
 
 	sess.seqno++
-	sess.broadcast()
+	// take the wait channel before broadcasting so that the write loop below
+	// runs its first pass immediately and announces the current state.
 	waitCh := sess.getWaitCh()
+	sess.broadcast()
 
 	s.mtx.Unlock()
 
